@@ -75,9 +75,19 @@ func (o *Optimizer) checkFunctionCalls(stmt Statement) error {
 
 func checkExprFunctionCalls(expr Expression, allowAggr bool) error {
 	var ret error
+	// A named field is walked once however often its name is used: a chain
+	// of fields that each use the previous one twice has 2^n paths
+	seen := make(map[Expression]struct{})
 	expr.Walk(func(e Expression) bool {
 		if ret != nil {
 			return false
+		}
+		if ref, ok := e.(*FieldReferenceExpr); ok {
+			if _, have := seen[ref.FieldExpr]; have {
+				return false
+			}
+			seen[ref.FieldExpr] = struct{}{}
+			return true
 		}
 		fcexpr, ok := e.(*FunctionCallExpr)
 		if !ok {
